@@ -94,9 +94,26 @@ func (g *Gen) goStmt(x *ssa.Go, h *Heap, guard string) *Heap {
 			}
 			g.vc.Assert(fmt.Sprintf("%s#pre:go:%s:%s@%d", funcKey(g.fn), shortKey(tgt.key), label, ord), "pre", guard, t, g.pos(x.Pos()), r.Text)
 		}
-		// ghost effect of spawning, if the contract declares one
-		if sp, ok := tgt.contract.Flags["spawn_effect"]; ok {
-			_ = sp
+		// ghost effect of spawning, if the contract declares one (e.g. "a consumer of this channel is now running")
+		for _, sd := range tgt.contract.SpawnSets {
+			envS := g.calleeEnv(tgt, c, args, g.val(c.Value), h, h)
+			v, err := envS.EvalVal(sd.E)
+			if err != nil {
+				g.errorf("%s: spawnsets: %v", sd.Line, err)
+				continue
+			}
+			cells, err := g.designatorCells(sd.Target, envS)
+			if err != nil || len(cells) != 1 {
+				g.errorf("%s: spawnsets target: %v", sd.Line, err)
+				continue
+			}
+			cl := cells[0]
+			cur := h.Get(cl.varName, cl.sort)
+			if len(cl.addrs) == 0 {
+				h = h.Set(cl.varName, cl.sort, v.T)
+			} else {
+				h = h.Set(cl.varName, cl.sort, nestedStore(cur, cl.addrs, v.T))
+			}
 		}
 	}
 	if ev, ok := g.specs.Defines["onSpawn"]; ok && tgt.key != "" {
